@@ -787,6 +787,136 @@ def r6(k: Kit) -> None:
                   'restriction is lifted', fi.loc(fi.node))
 
 
+CALLBACK_PREFIXES = ('validate_', 'change_password', 'get_kbdint_challenge')
+
+
+def r7(k: Kit) -> None:
+    """Possibly-asynchronous application verdicts are awaited before use."""
+    rep = k.rep
+    idx = k.idx
+    rep.rule('C05.R7', 'every verdict the server connection obtains from an '
+             'application callback that may be a coroutine (validate_*, '
+             'change_password, get_kbdint_challenge) is bound to a name, '
+             'tested with inspect.isawaitable and awaited before the name is '
+             'read anywhere else: an un-awaited coroutine object is truthy, '
+             'so returning it would accept every credential')
+    n = 0
+    for fi in idx.iter_funcs(['connection']):
+        if fi.cls is None or fi.cls.name != 'SSHServerConnection' or \
+                not isinstance(fi.node, ast.AsyncFunctionDef):
+            continue
+        calls = [c for c in ast.walk(fi.node) if isinstance(c, ast.Call) and
+                 isinstance(c.func, ast.Attribute) and
+                 dotted(c.func.value) == 'self._owner' and
+                 c.func.attr.startswith(CALLBACK_PREFIXES)]
+        if not calls:
+            continue
+        g = k.cfg(fi)
+        for c in calls:
+            n += 1
+            nd = g.node_for(c)
+            st = nd.ast if nd is not None else None
+            var = None
+            if isinstance(st, ast.Assign) and st.value is c and \
+                    isinstance(st.targets[0], ast.Name):
+                var = st.targets[0].id
+            elif isinstance(st, ast.AnnAssign) and st.value is c and \
+                    isinstance(st.target, ast.Name):
+                var = st.target.id
+            if var is None:
+                rep.violation('C05.R7', key(fi, f'{c.func.attr} awaited'),
+                              f'the result of self._owner.{c.func.attr}() is '
+                              'used directly (returned or tested) without '
+                              'the isawaitable / await step: for an `async '
+                              'def` callback it is a coroutine object, which '
+                              'is truthy', k.loc(fi, nd) if nd else
+                              fi.loc(fi.node))
+                continue
+            tests = [a.id for a in g.nodes if a.kind == 'atom' and
+                     is_call(a.ast, 'isawaitable') and a.ast.args and
+                     dotted(a.ast.args[0]) == var]
+            awaits = [a.id for a in g.nodes if a.ast is not None and any(
+                isinstance(x, ast.Await) and var in names_read(x)
+                for x in ast.walk(a.ast))]
+            bad = None
+            for r in g.nodes:
+                if r.id == nd.id or r.id in tests or r.id in awaits or \
+                        r.ast is None or var not in names_read(r.ast):
+                    continue
+                # (1) no read before the awaitable test
+                if g.path(nd.id, r.id, blocked_nodes=tests) is not None:
+                    bad = r
+                # (2) on the awaitable edge the first use is the await
+                for t in tests:
+                    for b, lab in g.succ[t]:
+                        if lab is True and (b == r.id or g.path(
+                                b, r.id, blocked_nodes=awaits) is not None) \
+                                and b not in awaits:
+                            bad = r
+            okt = bool(tests) and bool(awaits)
+            rep.check(bad is None and okt, 'C05.R7',
+                      key(fi, f'{c.func.attr} awaited'),
+                      f'`{var}` is awaited when awaitable before it is used',
+                      f'`{var}` (the verdict of self._owner.{c.func.attr}) '
+                      'is read on a path that skipped the isawaitable / '
+                      'await step', k.loc(fi, bad if bad else nd))
+    rep.floor('C05.R7', 'application verdict call sites', n, 8)
+
+
+def r8(k: Kit) -> None:
+    """Converse clause: a failed credential does not abandon the method
+    while further credentials of the same method remain."""
+    rep = k.rep
+    idx = k.idx
+    rep.rule('C05.R8', 'client methods that iterate over several credentials '
+             '(public key, host based): try_next_auth(next_method=True) - '
+             'give the whole method up - is reached only where the '
+             'connection reported that no credential is left (`<cred> is '
+             'None`); a failure to sign with one key retries the method so '
+             'the next key is offered')
+    n = 0
+    for cname in ('_ClientPublicKeyAuth', '_ClientHostBasedAuth'):
+        c = idx.cls('auth.' + cname)
+        for fi in c.methods.values():
+            calls = [(nd, cc) for nd, cc in k.calls_named(fi, 'try_next_auth')]
+            if not calls:
+                continue
+            g = k.cfg(fi)
+            for nd, cc in calls:
+                n += 1
+                give_up = any(kw.arg == 'next_method' and
+                              isinstance(kw.value, ast.Constant) and
+                              kw.value.value is True for kw in cc.keywords)
+                if not give_up:
+                    rep.ok('C05.R8', key(fi, 'retry keeps the method'),
+                           'failure of one credential retries the method',
+                           k.loc(fi, nd))
+                    continue
+
+                def val(x):
+                    a = x.ast
+                    if x.kind == 'atom' and isinstance(a, ast.Compare) and \
+                            len(a.ops) == 1 and \
+                            isinstance(a.comparators[0], ast.Constant) and \
+                            a.comparators[0].value is None:
+                        if isinstance(a.ops[0], ast.Is):
+                            return True
+                        if isinstance(a.ops[0], ast.IsNot):
+                            return False
+                    return None
+                w = g.guarded_by(nd.id, val)
+                rep.check(w is None, 'C05.R8',
+                          key(fi, 'method abandoned only when exhausted'),
+                          'next_method=True only behind `<credential> is '
+                          'None`',
+                          'the whole method is abandoned '
+                          '(try_next_auth(next_method=True)) on a path where '
+                          'credentials may remain: after one key fails to '
+                          'sign, a later valid key is never offered',
+                          k.loc(fi, nd), g.describe_path(w) if w else None)
+    rep.floor('C05.R8', 'try_next_auth sites in iterating methods', n, 4)
+
+
 def run(idx, rep, tier):
     k = Kit(idx, rep)
     rep.assumptions += NOT_DECIDED
@@ -796,3 +926,5 @@ def run(idx, rep, tier):
     r4(k)
     r5(k)
     r6(k)
+    r7(k)
+    r8(k)
